@@ -54,7 +54,7 @@ def call_rule(name, ts, args):
     except Exception:  # noqa: BLE001
         rj = {"k": "E"}
     after = [qa.val_json(a) for a in args]
-    return {"rule": name, "ts": qa.ts_json(ts), "a": before, "a2": after, "res": rj}
+    return {"rule": name, "ts": qa.ts_json(ts), "a": before, "a2": after, "res": rj, "alias": 0}
 
 
 def call_post(ts, v):
@@ -65,7 +65,7 @@ def call_post(ts, v):
         rj = qa.val_json(apply_postprocessing_rules(ts, v))
     except Exception:  # noqa: BLE001
         rj = {"k": "E"}
-    return {"rule": "postprocess", "ts": qa.ts_json(ts), "a": before, "a2": [qa.val_json(v)], "res": rj}
+    return {"rule": "postprocess", "ts": qa.ts_json(ts), "a": before, "a2": [qa.val_json(v)], "res": rj, "alias": 0}
 
 
 def random_rows_stage(ctx, prop, post=False):
